@@ -41,6 +41,10 @@ type Options struct {
 	ExtraSetup func(e *Env, n *centrifuge.Node)
 	// Users is the number of distinct user ids connections are spread over (default 2).
 	Users int
+	// CalmConn0 disables every virtual delay inside connection 0's operations (needed
+	// when a check races against it by busy-waiting: a spinning goroutine keeps the
+	// virtual clock from advancing, so the raced operation must not sleep).
+	CalmConn0 bool
 	// Inject, when set, closes connection Inject.Conn by Inject.Cause the first time
 	// that connection reaches yield point Inject.Point.
 	Inject *Injection
@@ -53,6 +57,10 @@ type Injection struct {
 	Point string
 	Conn  int
 	Cause string // disc-client disc-node disc-transport write-error
+	// Do, when set, replaces the close: it runs on its own goroutine; Until tells
+	// the goroutine parked at the yield point when to carry on.
+	Do    func(e *Env, cc *CConn, ch string)
+	Until func(e *Env, cc *CConn, ch string) bool
 	fired atomic.Bool
 	Fired atomic.Bool // set once the close was observed to have started
 }
@@ -292,7 +300,7 @@ func New(c *kit.Case, opt Options) *Env {
 				cc.Plan[i].Async = 0
 			}
 		}
-		if opt.Inject != nil && opt.Inject.Conn == i {
+		if (opt.Inject != nil && opt.Inject.Conn == i) || (opt.CalmConn0 && i == 0) {
 			cc.calm = true
 			for k := range cc.Plan {
 				cc.Plan[k].Async = 0
@@ -312,8 +320,16 @@ func (e *Env) hook(point string, cl *centrifuge.Client, ch string) {
 		return
 	}
 	if inj := e.Opt.Inject; inj != nil && inj.Point == point && inj.Conn == cc.Idx && inj.fired.CompareAndSwap(false, true) {
-		go e.do(cc, Op{Kind: inj.Cause})
-		if kit.SpinUntil(func() bool { return centrifuge.VerifClient(cl).Status == 3 }, 200000) {
+		until := func() bool { return centrifuge.VerifClient(cl).Status == 3 }
+		if inj.Do != nil {
+			go inj.Do(e, cc, ch)
+			if inj.Until != nil {
+				until = func() bool { return inj.Until(e, cc, ch) }
+			}
+		} else {
+			go e.do(cc, Op{Kind: inj.Cause})
+		}
+		if kit.SpinUntil(until, 200000) {
 			inj.Fired.Store(true)
 		}
 		return
